@@ -403,6 +403,7 @@ def trees(tier, seed):
 
 def run(tier, seed, work):
     res = vp.Result("C16", tier, seed, "fault_enumeration")
+    res.after_error_routes = ['expected_failure_rebuilds_whose_closure_ran', 'docker_run_failures_with_port_already_allocated']      # routes added in round 12 (a handled failure followed by ordinary work): must have observed something
     ts = trees(tier, seed)
     for d in vp.pmap(shard_run, [(s, work) for s in vp.split(ts, vp.NCPU * 2)]):
         res.merge(d)
@@ -421,6 +422,7 @@ def run(tier, seed, work):
                        "docker and pack are stand-ins that log argv and exit as scripted; a removal command that was issued counts as removal even if that very command was the injected failure",
                        "every third scenario tree references buildpacks of the crate under test (CurrentCrate / WorkspaceBuildpack: composite buildpacks packaged into a temporary "
                        "directory, nothing compiled); the others use BuildpackReference::Other only"]
+    res.required = list(getattr(res, "required", [])) + res.after_error_routes
     return res
 
 
